@@ -111,7 +111,8 @@ example : analyze (.agg "count_values" .by_ ["a", "b"] (some (.str "a")) (.sel "
 
   Fragment (`FExpr`, Lemmas/ShardEval.lean): selectors, pointwise functions and filters (with or
   without dropping the metric name), aggregations `by (L)` / `without (L)` with ANY operator,
-  nested to any depth.  `FExpr.toExpr` is what the analyzer sees, `FExpr.toV` what the engine
+  one-to-one vector matching `on (L)` / `ignoring (L)` (arithmetic, comparison filters, `and`,
+  `unless`, `or`), nested to any depth.  `FExpr.toExpr` is what the analyzer sees, `FExpr.toV` what the engine
   computes (spec-level semantics at one timestamp, `eval`). -/
 
 /-- abstract form: if no node changes the shard of a series, evaluating on each shard and
@@ -191,6 +192,13 @@ theorem C44_fragment_full_false : ¬ C44_fragment_full := by
 example : analyze (FExpr.aggBy "max" ["a"] (fun _ => 0) (.fn "abs" true some (.aggBy "sum" ["a", "b"] List.sum (.sel "m0" fun _ => true)))).toExpr
     = ⟨some ["a"], true⟩ := by decide
 example : NameSafe ["a"] true := by simp [NameSafe]
+-- vector matching: sum by (a) (m0) / on (a) sum by (a, b) (m1) is sharded by a; m0 + ignoring (b) m1 without b and the name
+example : analyze (FExpr.bin "/" true ["a"] true (fun x y => y.map (x + ·))
+      (.aggBy "sum" ["a"] List.sum (.sel "m0" fun _ => true)) (.aggBy "sum" ["a", "b"] List.sum (.sel "m1" fun _ => true))).toExpr
+    = ⟨some ["a"], true⟩ := by decide
+example : analyze (FExpr.bin "+" false ["b"] true (fun x y => y.map (x + ·)) (.sel "m0" fun _ => true) (.sel "m1" fun _ => true)).toExpr
+    = ⟨some ["b", "__name__"], false⟩ := by decide
+example : NameSafe ["b", "__name__"] false := by simp [NameSafe]
 -- … and a without-query made safe by an explicit `__name__`
 example : analyze (FExpr.aggWithout "sum" ["a", "__name__"] List.sum (.sel "m0" fun _ => true)).toExpr = ⟨some ["a", "__name__"], false⟩ := by decide
 example : NameSafe ["a", "__name__"] false := by simp [NameSafe]
